@@ -611,7 +611,8 @@ func runMCase(c MCase, tolerateKnown bool) mOutcome {
 	defer fx.cleanup()
 
 	var args map[string]any
-	if c.Args != nil {
+	malformed := c.ArgsRaw != ""
+	if c.Args != nil && !malformed {
 		args, _ = fx.subst(c.Args).(map[string]any)
 	}
 	cfgClass := fx.classifyPathArg(args, "path", fx.cfg)
@@ -692,6 +693,13 @@ func runMCase(c MCase, tolerateKnown bool) mOutcome {
 	if args != nil {
 		params["arguments"] = args
 	}
+	if malformed {
+		raw, _ := fx.subst(c.ArgsRaw).(string)
+		if !json.Valid([]byte(raw)) {
+			return finish(mfail("HARNESS", "case", "", "args_raw is not JSON: %q", raw))
+		}
+		params["arguments"] = json.RawMessage(raw)
+	}
 	cr, err := rpcExchange(srv, "tools/call", params)
 	if err != nil {
 		return finish(mfail("HARNESS", "rpc-call", "", "%v", err))
@@ -736,6 +744,9 @@ func runMCase(c MCase, tolerateKnown bool) mOutcome {
 	labels["result:"+kind] = true
 	if queueChanged {
 		labels["effect:queue"] = true
+		if v.Known && !v.Doc.Mutating {
+			labels["nonmutating-tool-changed-queue"] = true
+		}
 	}
 	if cfgChanged {
 		labels["effect:config"] = true
@@ -756,7 +767,7 @@ func runMCase(c MCase, tolerateKnown bool) mOutcome {
 	if !v.Allowed && !gateRefused {
 		return finish(mfail("C20", "gate-not-enforced", "", "%s: failing gate(s) %v, but the call was not refused by gating (%s: %.200q); %s", row, v.Failing, kind, text, effects()))
 	}
-	if v.Allowed && gateRefused {
+	if v.Allowed && gateRefused && !malformed {
 		return finish(mfail("C20", "allowed-but-refused", "", "%s: every documented gate passes, but the call was refused: %.200q", row, text))
 	}
 	// (c)/(d) refused => no effect
@@ -825,6 +836,13 @@ func runMCase(c MCase, tolerateKnown bool) mOutcome {
 	// audit
 	lines := auditLines(&audit)
 	switch {
+	case malformed:
+		// a request whose arguments are no object is rejected by the protocol layer; whether that
+		// counts as a "mutating call" is left open by the text: 0 or 1 record accepted
+		if len(lines) > 1 {
+			return finish(mfail("C20", "audit-count", "", "%s: %d audit lines for one call", row, len(lines)))
+		}
+		labels[fmt.Sprintf("audit-malformed:%d", len(lines))] = true
 	case !v.Known:
 		// the text says nothing about calls to names that are no tool: 0 or 1 record accepted
 		if len(lines) > 1 {
